@@ -207,7 +207,22 @@ func (s *Sub) toGtab() gtab.Subtable {
 			adj = append(adj, row)
 		}
 		return &gtab.Gpos2_2{Cov: covSet(s.Cov), Class1: classDef(s.CD), Class2: classDef(s.CD2), Adjust: adj}
-	case "mb":
+	case "r8":
+		var keys, vals []int
+		for _, e := range s.Map {
+			keys = append(keys, e[0])
+			vals = append(vals, e[1])
+		}
+		back := make([]coverage.Table, len(s.Covs))
+		for i, c := range s.Covs {
+			back[i] = covTable(c)
+		}
+		look := make([]coverage.Table, len(s.Covs3))
+		for i, c := range s.Covs3 {
+			look[i] = covTable(c)
+		}
+		return &gtab.Gsub8_1{Input: covTable(keys), Backtrack: back, Lookahead: look, SubstituteGlyphIDs: gids(vals)}
+	case "mb", "mm":
 		var mk, bk []int
 		var marr []markarray.Record
 		for _, m := range s.Marks {
@@ -227,6 +242,9 @@ func (s *Sub) toGtab() gtab.Subtable {
 				}
 			}
 			barr = append(barr, row)
+		}
+		if s.Kind == "mm" {
+			return &gtab.Gpos6_1{Mark1Cov: covTable(mk), Mark2Cov: covTable(bk), Mark1Array: marr, Mark2Array: barr}
 		}
 		return &gtab.Gpos4_1{MarkCov: covTable(mk), BaseCov: covTable(bk), MarkArray: marr, BaseArray: barr}
 	}
@@ -542,20 +560,47 @@ func fromSubtable(st gtab.Subtable) Sub {
 			s.PairMat = append(s.PairMat, row)
 		}
 		return s
-	case *gtab.Gpos4_1:
-		mk := fromCovTable(t.MarkCov)
-		bk := fromCovTable(t.BaseCov)
-		if mk == nil || bk == nil || len(mk) != len(t.MarkArray) || len(bk) != len(t.BaseArray) {
-			return unsup("gpos4.1 shape")
+	case *gtab.Gsub8_1:
+		keys := fromCovTable(t.Input)
+		if keys == nil || len(keys) != len(t.SubstituteGlyphIDs) {
+			return unsup("gsub8.1 shape")
 		}
-		s := Sub{Kind: "mb"}
+		s := Sub{Kind: "r8", Covs: [][]int{}, Covs3: [][]int{}}
+		for i, k := range keys {
+			s.Map = append(s.Map, [2]int{k, int(t.SubstituteGlyphIDs[i])})
+		}
+		for _, c := range t.Backtrack {
+			s.Covs = append(s.Covs, sortedGids(c))
+		}
+		for _, c := range t.Lookahead {
+			s.Covs3 = append(s.Covs3, sortedGids(c))
+		}
+		return s
+	case *gtab.Gpos4_1, *gtab.Gpos6_1:
+		var markCov, baseCov coverage.Table
+		var markArray []markarray.Record
+		var baseArray [][]anchor.Table
+		kind := "mb"
+		if t4, ok := t.(*gtab.Gpos4_1); ok {
+			markCov, baseCov, markArray, baseArray = t4.MarkCov, t4.BaseCov, t4.MarkArray, t4.BaseArray
+		} else {
+			t6 := t.(*gtab.Gpos6_1)
+			markCov, baseCov, markArray, baseArray = t6.Mark1Cov, t6.Mark2Cov, t6.Mark1Array, t6.Mark2Array
+			kind = "mm"
+		}
+		mk := fromCovTable(markCov)
+		bk := fromCovTable(baseCov)
+		if mk == nil || bk == nil || len(mk) != len(markArray) || len(bk) != len(baseArray) {
+			return unsup("gpos4.1/6.1 shape")
+		}
+		s := Sub{Kind: kind}
 		for i, g := range mk {
-			r := t.MarkArray[i]
+			r := markArray[i]
 			s.Marks = append(s.Marks, MarkRec{g, int(r.Class), int(r.X), int(r.Y)})
 		}
 		for i, g := range bk {
 			b := BaseRec{G: g, Anchors: []*[2]int{}}
-			for _, a := range t.BaseArray[i] {
+			for _, a := range baseArray[i] {
 				if a.IsEmpty() {
 					b.Anchors = append(b.Anchors, nil)
 				} else {
